@@ -71,6 +71,16 @@ def cases(rng, tier):
         edge = [float(rng.choice([1, 2, 3, 4, 6])) for _ in range(nd)]
         yield dict(regime="farcell", p1=off, p2=[o + e for o, e in zip(off, edge)], n=[1] * nd, dims=None,
                    factors=[rng.choice([1000.0, 4096.0, 3.0, 1.5, 1.0, 0.5, 1e6]) for _ in range(nd)], sub=rng.getrandbits(32))
+    # corner points given as Python ints, edges so long that their product exceeds 2**63 (volume and cell volume are
+    # products of the edge lengths: integer arithmetic must not wrap around; finding D124)
+    for k in range(16 if tier == "quick" else 150):
+        nd = rng.choice([2, 3, 3, 4])
+        n = [rng.randint(1, 4) for _ in range(nd)]
+        lim = {2: 10 ** 10, 3: 5 * 10 ** 6, 4: 2 * 10 ** 5}[nd]
+        edge = [nn * rng.randint(lim // 50, lim) for nn in n]
+        p1 = [rng.randint(-lim, lim) for _ in range(nd)]
+        yield dict(regime="tol", stream="intbig", p1=p1, p2=[a + e for a, e in zip(p1, edge)], n=n,
+                   dims=rng.sample(NAMES, nd) if rng.random() < 0.3 else None, sub=rng.getrandbits(32))
     # malformed stream
     yield dict(regime="exact", p1=[0.0, 0.0], p2=[1.0, 0.0], n=[1, 1], dims=None, sub=1)   # zero edge
     yield dict(regime="exact", p1=[0.0, 0.0], p2=[1.0, 1.0], n=[1, 0], dims=None, sub=2)   # zero count
@@ -156,7 +166,7 @@ def run_impl(case):
     if case["regime"] == "farcell":
         return run_farcell(case)
     rng = __import__("random").Random(case["sub"])
-    obs = {"oracle": [], "tags": [f"regime:{case['regime']}", f"ndim:{len(case['p1'])}"]}
+    obs = {"oracle": [], "tags": [f"regime:{case['regime']}", f"ndim:{len(case['p1'])}", f"stream:{case.get('stream', 'base')}"]}
     kw = {} if case["dims"] is None else {"dims": case["dims"]}
     st, r = _err(lambda: df.Region(p1=case["p1"], p2=case["p2"], **kw))
     obs["region"] = st
@@ -180,6 +190,8 @@ def run_impl(case):
     obs["len"] = len(m)
     obs["dV"] = Q(m.dV)
     obs["volume"] = Q(m.region.volume)
+    if abs(float(m.region.volume) - len(m) * float(m.dV)) > 1e-9 * abs(len(m) * float(m.dV)):
+        obs["oracle"].append(f"the cells do not tile the region: volume {m.region.volume!r} != len * dV = {len(m) * float(m.dV)!r}")
     big = len(m) > 400
     obs["big"] = big
     if not big:
